@@ -684,3 +684,190 @@ Section ExecSound.
         inversion H; subst. eexists _, _. split; [reflexivity | intros _; discriminate].
   Qed.
 End ExecSound.
+
+(* ------------------------------------------------------------------ the checker decides the judgment *)
+
+Section Checker.
+  Variable s : schema.
+  Variable frags : list fragment.
+  Variable vdefs : list var_def.
+  Variable nulls : list str.
+
+  Lemma reach_sels_complete rt rec :
+    (forall sub fl, rec sub = Some fl -> forall k f, reach s frags rt sub k f -> In (k, f) fl) ->
+    forall sels fl, reach_sels s frags rec rt sels = Some fl ->
+                    forall k f, reach s frags rt sels k f -> In (k, f) fl.
+  Proof.
+    intros Hrec. induction sels as [|x rest IH]; intros fl H k f Hr.
+    - inversion Hr; subst; match goal with Hin : In _ [] |- _ => destruct Hin end.
+    - cbn [reach_sels] in H.
+      match type of H with match ?h with Some _ => _ | None => _ end = _ => destruct h as [a|] eqn:Ea end;
+        [|discriminate].
+      destruct (reach_sels s frags rec rt rest) as [b|] eqn:Eb; [|discriminate].
+      inversion H; subst; clear H. apply in_app_iff.
+      inversion Hr as [sels al name args dirs sub Hin
+                      | sels tc dirs sub k0 f0 Hin Hc Hr'
+                      | sels name dirs fr k0 f0 Hin Hf Hc Hr']; subst.
+      + destruct Hin as [->|Hin].
+        * left. inversion Ea; subst. left. reflexivity.
+        * right. eapply IH; [reflexivity|]. eapply r_field. exact Hin.
+      + destruct Hin as [->|Hin].
+        * left. rewrite Hc in Ea. eapply Hrec; eassumption.
+        * right. eapply IH; [reflexivity|]. eapply r_inline; eassumption.
+      + destruct Hin as [->|Hin].
+        * left. rewrite Hf, Hc in Ea. eapply Hrec; eassumption.
+        * right. eapply IH; [reflexivity|]. eapply r_spread; eassumption.
+  Qed.
+
+  Lemma reach_list_complete rt fuel : forall sels fl,
+    reach_list s frags fuel rt sels = Some fl ->
+    forall k f, reach s frags rt sels k f -> In (k, f) fl.
+  Proof.
+    induction fuel as [|n IH]; intros sels fl H; [discriminate|].
+    cbn [reach_list] in H. eapply reach_sels_complete; [|exact H]. exact IH.
+  Qed.
+
+  Lemma runtime_in_objects n rt' : runtime_of_b s n rt' = true -> In rt' (object_names s).
+  Proof.
+    intro H. assert (Ho : is_object s rt' = true).
+    { unfold runtime_of_b in H. apply orb_true_iff in H. destruct H as [H|H];
+        apply andb_true_iff in H; destruct H as [H1 H2].
+      - apply str_eqb_eq in H2. subst. exact H1.
+      - exact H1. }
+    unfold is_object, lookup_type in Ho. destruct (scalar_of_name rt'); [discriminate|].
+    destruct (lookup rt' (s_types s)) as [td|] eqn:El; [|discriminate].
+    destruct td as [| |fs ifs| |]; try discriminate.
+    apply lookup_In in El. unfold object_names. apply in_flat_map.
+    exists (rt', TObject fs ifs). split; [exact El | left; reflexivity].
+  Qed.
+
+  Theorem check_set_sound : forall fuel rt sels,
+    check_set s frags vdefs nulls fuel rt sels = true -> set_typed s frags vdefs nulls rt sels.
+  Proof.
+    induction fuel as [|n IH]; intros rt sels H; [discriminate|].
+    cbn [check_set] in H.
+    destruct (reach_list s frags n rt sels) as [fl|] eqn:Er; [|discriminate].
+    apply andb_true_iff in H. destruct H as [H1 H2].
+    rewrite forallb_forall in H1. rewrite forallb_forall in H2.
+    pose proof (reach_list_complete rt n sels fl Er) as Hcomp.
+    (* the static group of a reachable field *)
+    assert (Hgrp : forall k f, reach s frags rt sels k f ->
+              exists f0 fs, In (k, f0 :: fs) (group fl) /\ In f (f0 :: fs) /\
+                (forall f', In f' (f0 :: fs) -> fs_name f' = fs_name f0) /\
+                (forall fd rt', lookup_field s rt (fs_name f0) = Some fd ->
+                                runtime_of_b s (named_of (f_type fd)) rt' = true ->
+                                set_typed s frags vdefs nulls rt' (merged_sels (f0 :: fs)))).
+    { intros k f Hr. apply Hcomp in Hr. apply group_in in Hr. destruct Hr as [fs [Hin Hf]].
+      destruct fs as [|f0 fs]; [destruct Hf|]. exists f0, fs. split; [exact Hin|]. split; [exact Hf|].
+      specialize (H2 _ Hin). cbn [snd] in H2. apply andb_true_iff in H2. destruct H2 as [Hn Hrec].
+      split.
+      - intros f' Hf'. rewrite forallb_forall in Hn. specialize (Hn _ Hf'). apply str_eqb_eq in Hn. exact Hn.
+      - intros fd rt' Hl Hrt. rewrite Hl in Hrec. rewrite forallb_forall in Hrec.
+        specialize (Hrec rt' (runtime_in_objects _ _ Hrt)). rewrite Hrt in Hrec. cbn in Hrec.
+        apply IH. exact Hrec. }
+    constructor.
+    - intros k f Hr. apply Hcomp in Hr. exact (H1 _ Hr).
+    - intros k f1 f2 Hr1 Hr2.
+      destruct (Hgrp k f1 Hr1) as [a [fsa [Ha [Hfa [Hna _]]]]].
+      destruct (Hgrp k f2 Hr2) as [b [fsb [Hb [Hfb [Hnb _]]]]].
+      pose proof (nodup_keys_unique _ _ _ _ (group_nodup fl) Ha Hb) as E. inversion E; subst.
+      rewrite (Hna _ Hfa), (Hnb _ Hfb). reflexivity.
+    - intros k fs f1 fd rt' Hall Hin Hl Hrt.
+      destruct (Hgrp k f1 (Hall f1 Hin)) as [a [fsa [Ha [Hfa [Hna Hrec]]]]].
+      rewrite (Hna _ Hfa) in Hl. specialize (Hrec fd rt' Hl Hrt).
+      eapply set_typed_mono; [|exact Hrec].
+      intros k' f' Hr. apply reach_merged_inv in Hr. destruct Hr as [f0 [Hf0 Hr]].
+      eapply reach_merged; [|exact Hr].
+      destruct (Hgrp k f0 (Hall f0 Hf0)) as [b [fsb [Hb [Hfb _]]]].
+      pose proof (nodup_keys_unique _ _ _ _ (group_nodup fl) Ha Hb) as E. inversion E; subst. exact Hfb.
+  Qed.
+End Checker.
+
+(* ------------------------------------------------------------------ the theorems *)
+
+Lemma conforms_root_inv s rt root :
+  conforms_root s rt root = true ->
+  exists tn flds, root = DObj tn flds /\ is_object s rt = true /\ obj_conf s rt flds.
+Proof.
+  unfold conforms_root. destruct root as [|l|tn flds|items|]; try discriminate.
+  intro H. apply andb_true_iff in H. destruct H as [Ho Hc].
+  destruct (conforms_obj_inv s tn flds rt Hc) as [rt' [[[_ ->]|[Hn _]] [_ Hoc]]]; [|congruence].
+  exists tn, flds. repeat split; assumption.
+Qed.
+
+Lemma well_typed_with_inv nulls s d :
+  well_typed_with nulls s d = true ->
+  nodup_names (map v_name (d_vars d)) = true /\
+  exists rt, root_type s (d_kind d) = Some rt /\ is_object s rt = true /\
+             set_typed s (d_frags d) (d_vars d) nulls rt (d_sels d).
+Proof.
+  unfold well_typed_with. intro H.
+  apply andb_true_iff in H. destruct H as [H Hroot].
+  apply andb_true_iff in H. destruct H as [H _].
+  apply andb_true_iff in H. destruct H as [Hv _].
+  unfold vars_ok in Hv. apply andb_true_iff in Hv. destruct Hv as [Hnd _].
+  split; [exact Hnd|].
+  destruct (root_type s (d_kind d)) as [rt|]; [|discriminate].
+  apply andb_true_iff in Hroot. destruct Hroot as [Ho Hc].
+  exists rt. repeat split; [exact Ho|]. eapply check_set_sound. exact Hc.
+Qed.
+
+(* A well-typed operation over conforming data, on a schema whose argument defaults are valid,
+   with accepted variables none of which is a null sitting in a non-null position: no errors, and
+   data is not null. *)
+Theorem soundness fuel s d vars root cv rt j es cs :
+  schema_ok s = true ->
+  coerce_variable_values s (d_vars d) vars = Some cv ->
+  well_typed_at s d cv = true ->
+  root_type s (d_kind d) = Some rt ->
+  conforms_root s rt root = true ->
+  execute_fuel fuel s d vars root = Resp j es cs ->
+  es = [] /\ j <> JNull.
+Proof.
+  intros Hs Hcv Hwt Hrt Hconf Hex.
+  apply well_typed_with_inv in Hwt. destruct Hwt as [Hnd [rt' [Hrt' [Hobj Hty]]]].
+  rewrite Hrt in Hrt'. inversion Hrt'; subst rt'.
+  apply conforms_root_inv in Hconf. destruct Hconf as [tn [flds [-> [_ Hoc]]]].
+  apply execute_fuel_resp in Hex. destruct Hex as [cv' [tn' [r [Hcv' [Hrt'' [_ [He ->]]]]]]].
+  rewrite Hcv in Hcv'. inversion Hcv'; subst cv'. rewrite Hrt in Hrt''. inversion Hrt''; subst tn'.
+  pose proof (coerce_vars_ok _ _ _ _ Hnd Hcv) as Hok.
+  destruct (exec_sound s (d_frags d) (d_vars d) cv Hs Hok fuel) as [Hsels _].
+  destruct (Hsels rt flds (d_sels d) _ Hobj Hty Hoc He) as [j' [cs' [Heq Hj]]].
+  inversion Heq; subst. split; [reflexivity | exact Hj].
+Qed.
+
+(* the static form: a document accepted by the static judgment, when no variable of nullable type
+   is null *)
+Corollary soundness_static fuel s d vars root cv rt j es cs :
+  schema_ok s = true ->
+  well_typed s d = true ->
+  coerce_variable_values s (d_vars d) vars = Some cv ->
+  nulls_of (d_vars d) cv = [] ->
+  root_type s (d_kind d) = Some rt ->
+  conforms_root s rt root = true ->
+  execute_fuel fuel s d vars root = Resp j es cs ->
+  es = [] /\ j <> JNull.
+Proof.
+  intros Hs Hwt Hcv Hn. eapply soundness; try eassumption.
+  unfold well_typed_at. rewrite Hn. exact Hwt.
+Qed.
+
+(* With ARBITRARY data: the arguments of every field that execution can reach coerce - a field error
+   is never due to an argument, a variable or an unknown field of a well-typed operation. *)
+Theorem arguments_coerce s frags vdefs cv rt top k f :
+  schema_ok s = true -> cv_ok vdefs cv ->
+  set_typed s frags vdefs (nulls_of vdefs cv) rt top ->
+  reach s frags rt top k f ->
+  str_eqb (fs_name f) n_typename = false ->
+  exists fd args, lookup_field s rt (fs_name f) = Some fd /\
+                  coerce_args s cv (f_args fd) (fs_args f) = Some args.
+Proof.
+  intros Hs Hcv Hty Hr Hn. inversion Hty as [rt0 top0 T1 _ _]; subst.
+  pose proof (T1 k f Hr) as Hf. unfold field_ok in Hf. rewrite Hn in Hf.
+  destruct (lookup_field s rt (fs_name f)) as [fd|] eqn:El; [|discriminate].
+  apply andb_true_iff in Hf. destruct Hf as [Hargs _].
+  unfold args_ok in Hargs. apply andb_true_iff in Hargs. destruct Hargs as [_ Hargs].
+  destruct (args_sound s vdefs cv Hcv (f_args fd) (fs_args f)
+              (schema_defaults s rt (fs_name f) fd Hs El) Hargs) as [args Ha].
+  exists fd, args. split; [reflexivity | exact Ha].
+Qed.
